@@ -47,7 +47,7 @@ CHECKS = {
         category='model_checking',
         text='(a) one transition of the real restart state machine (determine_restart, prepare_next_block, step-size spreading) from an arbitrary symbolic state, SMT validity per path + coverage; '
              '(b) bounded exploration of the real controller over all restart-request histories (symbolic request at every (step, attempt)); (c) real step-size formula, limiters and '
-             'Adaptivity / AdaptivityRK / AdaptivityResidual / the adaptivity classes for converged collocation problems (also stopping by increment) / avoid_restarts on symbolic reals (power encoded algebraically), limiters taken from a real controller in its call order; (d) adaptive runs: the real controller with the real Adaptivity, embedded estimator (estimate replaced by a fresh positive real per call), limiter, restarting and spreading; t0, dt, Tend, dt_min, dt_max symbolic; per path tiling, chaining, accepted-within-tolerance, proposal formula and clip, one step size per block, smaller retry. Bounds: NP<=3(4), max_restarts<=2(3), <=5(6) steps, order<=5; (d) <= 3 accepted steps, order 1 (2).',
+             'Adaptivity / AdaptivityRK / AdaptivityResidual / the adaptivity classes for converged collocation problems (also stopping by increment) / avoid_restarts on symbolic reals (power encoded algebraically), limiters taken from a real controller in its call order; (d) adaptive runs: the real controller with the real Adaptivity, embedded estimator (estimate replaced by a fresh positive real per call), limiter, restarting and spreading; t0, dt, Tend, dt_min, dt_max symbolic; per path tiling, chaining, accepted-within-tolerance, proposal formula and clip, one step size per block, smaller retry.; (e) every configured parameter of the restart / step-size controllers arrives unchanged at the objects a real controller carries (ENUMERATED); retry budgets from 0; the restart counter of every attempt against the history. Bounds: NP<=3(4), max_restarts<=2(3), <=5(6) steps, order<=5; (d) <= 3 accepted steps, order 1 (2).',
         note='Trusted: z3; injected restart requests stand for the error estimators; beta<1 for the strict-decrease clause. Known finding: later step accepted above the tolerance when the block budget is used up (known_findings.json). Outside: the numerical estimators, StepSizeRounding, MPI.',
         design='4/C09', technique='symbolic execution of real convergence controllers + SMT (LIA/NRA) validity; symbolic path exploration of restart histories',
     ),
@@ -105,7 +105,7 @@ CHECKS = {
     'C19': dict(
         category='other',
         text='The real controller runs on a symbolic initial value; two runs are bit-identical for EVERY input iff their result terms and all statistics values are structurally identical z3 terms. Scenarios: fresh controller twice, '
-             'same controller two and three times, runs of different lengths on one controller with a post-run hook, the configuration alone in a fresh interpreter vs after differently configured controllers with the same sizes (concrete), a differently configured controller (extra status variables, hooks) run in between, split at every block boundary (statistics of the halves merged); configurations include increment-based stopping (extra level status variables), a user hook with an extended entry class, a sweep-index dependent preconditioner with several sweeps, the shipped NewtonInexactness controller with a tolerance-dependent solver, an explicit dt_initial, several controllers built from one shared parameter dictionary. Non-identical pairs are '
+             'same controller two and three times, runs of different lengths on one controller with a post-run hook, the configuration alone in a fresh interpreter vs after differently configured controllers with the same sizes (concrete), a differently configured controller (extra status variables, hooks) run in between, split at every block boundary (statistics of the halves merged); configurations include increment-based stopping (extra level status variables), a user hook with an extended entry class, a sweep-index dependent preconditioner with several sweeps, the shipped NewtonInexactness controller with a tolerance-dependent solver, an explicit dt_initial, several controllers built from one shared parameter dictionary. Further scenarios: a run whose length is not a whole number of blocks split at a block boundary with k ulp of round-off on the end time (k a symbolic integer in [-6, 6]); one sweeper-parameter dictionary used by controllers with different sweeper classes; a controller built in between whose convergence controller registers a recording hook. Non-identical pairs are '
              'decided over the reals by the solver and replayed on real floats.',
         note='Trusted: structural identity of terms implies bit-equal floats. Known finding: initial_guess=random (hidden RNG state). Outside: MPI, adaptive step sizes, timings.',
         design='4/C19', technique='symbolic execution of whole real runs; syntactic term identity, SMT equality over the reals as fallback',
